@@ -913,6 +913,27 @@ def check_C11(env):
                     yield case
 
 
+    # an empty collision set gives NaN for every arm, also for an arm added after fit: all stored rows are positive multiples
+    # of one vector v, so -v shares no sign pattern with them under any hyperplanes
+    for lp in CF_OUT[:1]:
+        nbh = ['LSHNearest', {'n_dimensions': 4, 'n_tables': 3}]
+        if not in_focus(env, lp, nbh):
+            continue
+        v = [1.0, 2.0]
+        rows = [[1, 2, 3, 1, 2, 3], [4, 9, 1, 6, 3, 8], [[c * v[0], c * v[1]] for c in (1, 2, 3, 4, 5, 6)]]
+        case = {'arms': ARMS, 'lp': lp, 'np': nbh, 'calls': [['fit'] + rows, ['add_arm', 8]]}
+        m = build(case)
+        call(m, ['fit'] + rows)
+        for stage in (0, 1):
+            if stage:
+                call(m, ['add_arm', 8])
+            e = m.predict_expectations([[-v[0], -v[1]]])
+            if not all(isinstance(x, float) and math.isnan(x) for x in e.values()):
+                raise Failure('C11', 'a query that collides with no stored row%s: expectations are not NaN for every arm: %r'
+                              % (' (after add_arm)' if stage else '', e), case, e, 'NaN for every arm', 'approximate')
+        yield case
+
+
 # =========================================================================================== C12
 def check_C12(env):
     rng = env['rng']
